@@ -119,14 +119,23 @@ Definition bcast_to (rsh osh : list nat) : bool :=
   | None => false
   end.
 
+(* numpy drops surplus leading axes of length 1 of the right-hand side *)
+Fixpoint strip_ones (rsh : list nat) (n : nat) : list nat :=
+  match rsh with
+  | 1 :: r => if Nat.ltb n (length rsh) then strip_ones r n else rsh
+  | _ => rsh
+  end.
+
 (* a[sels] = rhs ; writes happen in row-major order of the output index (last write wins) *)
 Definition setindex (a : nd) (sels : list sel) (rhs : nd) : res nd :=
   match mk_plan_of sels (shp a) with
   | None => Err
   | Some p =>
-      if bcast_to (shp rhs) (p_osh p) then
+      (* assigning to a single element (all-integer index) takes a 0-d right-hand side only *)
+      let rsh := match p_osh p with [] => shp rhs | _ => strip_ones (shp rhs) (length (p_osh p)) end in
+      if bcast_to rsh (p_osh p) then
         Ok (mk_nd (shp a)
-              (fold_left (fun d idx => upd d (ravel (shp a) (src_of sels p idx)) (rhs_at (shp rhs) (dat rhs) idx))
+              (fold_left (fun d idx => upd d (ravel (shp a) (src_of sels p idx)) (rhs_at rsh (dat rhs) idx))
                          (all_idx (p_osh p)) (dat a)))
       else Err
   end.
